@@ -65,7 +65,12 @@ type Output struct {
 
 func main() {
 	specPath := flag.String("spec", "", "job spec JSON file")
+	tagsOf := flag.String("structtags", "", "print the struct types of the package in this directory (fields, types, tags) as JSON and exit")
 	flag.Parse()
+	if *tagsOf != "" {
+		structTags(*tagsOf)
+		return
+	}
 	if *specPath == "" {
 		fmt.Fprintln(os.Stderr, "usage: gosymx -spec job.json")
 		os.Exit(2)
@@ -257,4 +262,45 @@ func firstFile(p *packages.Package) string {
 		return p.CompiledGoFiles[0]
 	}
 	return ""
+}
+
+
+// structTags prints every named struct type of the package in dir with its fields, their types
+// and their struct tags, as the type checker sees them in the current source tree. Used by
+// generators of tag-driven models (C20): the model is regenerated from /repo on every run.
+func structTags(dir string) {
+	cfg := &packages.Config{Mode: packages.NeedName | packages.NeedTypes | packages.NeedSyntax | packages.NeedTypesInfo | packages.NeedFiles | packages.NeedImports | packages.NeedDeps, Dir: dir}
+	pkgs, err := packages.Load(cfg, ".")
+	if err != nil {
+		fatal(err)
+	}
+	if len(pkgs) != 1 || len(pkgs[0].Errors) > 0 {
+		fatal(fmt.Errorf("structtags: cannot load %s: %v", dir, pkgs[0].Errors))
+	}
+	type field struct {
+		Name string `json:"name"`
+		Type string `json:"type"`
+		Tag  string `json:"tag"`
+	}
+	res := map[string][]field{}
+	sc := pkgs[0].Types.Scope()
+	for _, n := range sc.Names() {
+		tn, ok := sc.Lookup(n).(*types.TypeName)
+		if !ok {
+			continue
+		}
+		st, ok := tn.Type().Underlying().(*types.Struct)
+		if !ok {
+			continue
+		}
+		fs := []field{}
+		for i := 0; i < st.NumFields(); i++ {
+			f := st.Field(i)
+			fs = append(fs, field{f.Name(), types.TypeString(f.Type(), types.RelativeTo(pkgs[0].Types)), st.Tag(i)})
+		}
+		res[n] = fs
+	}
+	enc, _ := json.MarshalIndent(map[string]interface{}{"package": pkgs[0].PkgPath, "structs": res}, "", " ")
+	os.Stdout.Write(enc)
+	fmt.Println()
 }
